@@ -270,7 +270,13 @@ pub fn observe(st: &UnsealedState<InMemoryCas>, probes: &[CoinID]) -> J {
             pools.push(json!({"lefts": ps.lefts.to_string(), "rights": ps.rights.to_string(), "liqs": ps.liqs.to_string()}));
         }
     }
+    let named = |l: Denom, r: Denom| match vh::pools(st).get(&PoolKey::new(l, r)) {
+        Some(ps) => json!({"lefts": ps.lefts.to_string(), "rights": ps.rights.to_string(), "liqs": ps.liqs.to_string()}),
+        None => J::Null,
+    };
+    let builtin = json!({"MEL/SYM": named(Denom::Mel, Denom::Sym), "MEL/ERG": named(Denom::Mel, Denom::Erg), "ERG/SYM": named(Denom::Erg, Denom::Sym)});
     json!({
+        "builtin_pools": builtin,
         "probes": probes.iter().map(|id| match vh::coins(st).get_coin(*id) { Some(c) => cdh_json(&c), None => J::Null }).collect::<Vec<_>>(),
         "n_coins": all.len(),
         "coin_supply": supply.iter().map(|(k, v)| (k.clone(), J::String(v.to_string()))).collect::<serde_json::Map<String, J>>(),
@@ -332,6 +338,19 @@ pub fn batch(req: &J) -> J {
                     let mut o = observe(&u, &probes);
                     o["panicked"] = json!(false);
                     out["melmint"] = o;
+                }
+            }
+        }
+        if req.get("preseal_only").is_some() {
+            // the state after preseal_melmint alone (public): together with "seal" this isolates what apply_tip_909 and the
+            // proposer action add
+            let st2 = st.clone();
+            match catch_unwind(AssertUnwindSafe(move || melstf::preseal_melmint(st2))) {
+                Err(_) => { out["preseal"] = json!({"panicked": true, "msg": crate::last_panic()}); }
+                Ok(u) => {
+                    let mut o = observe(&u, &probes);
+                    o["panicked"] = json!(false);
+                    out["preseal"] = o;
                 }
             }
         }
